@@ -3,6 +3,7 @@ package main
 import (
 	"bytes"
 	"fmt"
+	"os"
 	"runtime"
 	"runtime/debug"
 
@@ -399,6 +400,11 @@ func c04(c *Ctx) {
 			}()
 			p := c.Scratch.Path("c04")
 			defer removeFile(p)
+			if i%3 == 1 {
+				// the destination already exists as an empty file (a reserved name)
+				os.WriteFile(p, nil, 0600)
+				c.R.Inc("persists_to_a_preexisting_empty_file", 1)
+			}
 			if err := zx.Persist(seg, p); err != nil {
 				c.R.Fail("persist-err", "%s: %v", id, err)
 				return
